@@ -63,6 +63,26 @@ func (x *vc) hashableKey(st *state, mt *types.Map, k Val, pos string) {
 	x.check(st, "hashable", "", ok, pos, "map key of interface type: the dynamic type must be hashable (not a slice, map, function, or a struct/array holding one)")
 }
 
+// mapInvFormula: the declared invariant of map type mt applied to value v ("" when none is declared)
+func (x *vc) mapInvFormula(st *state, mt *types.Map, v Val) string {
+	if x.p.cons.mapInv == nil || v.T == "" {
+		return ""
+	}
+	pn, ok := x.p.cons.mapInv[types.TypeString(mt, func(p *types.Package) string { return p.Name() })]
+	if !ok {
+		return ""
+	}
+	pd, ok := x.p.cons.preds[pn]
+	if !ok || len(pd.params) != 1 {
+		return ""
+	}
+	env := &cenv{x: x, vars: map[string]Val{pd.params[0].name: v}, st: st, old: st}
+	if sp, ok := x.p.spkgs[pd.pkg]; ok {
+		env.pkg = sp.Pkg
+	}
+	return x.evalBool(env, pd.body)
+}
+
 func (x *vc) recordExternalResult(fr *frame, callee *ssa.Function, res Val, guard string) {
 	if !fr.top {
 		return
